@@ -22,6 +22,8 @@ TYPES = {
     "standard": ("StandardCharacterMatrix", "0123456789-?"),
     "restriction": ("RestrictionSitesCharacterMatrix", "1010"),
     "infinite": ("InfiniteSitesCharacterMatrix", "1010"),
+    # cells are floats; the model keeps their str() (what symbols_as_list() renders)
+    "continuous": ("ContinuousCharacterMatrix", [0.5, -1.25, 3.0, 2e-05, 0.0, 7.0, 1e+20, -0.0]),
 }
 MAXCOLS = 48
 BUDGET = 400000
@@ -51,11 +53,11 @@ class C19(Machine):
     rule = ("seeded histories (3-30 steps) of concatenate/extend/add/replace/update/remove/discard/keep/fill/pack/subset/export "
             "operations on 1-4 matrices over a shared namespace (partially overlapping taxon sets, repeated labels and objects) plus "
             "one over a foreign namespace; distinct = operation-name sequences with at least one state-changing step")
-    components = {"real": ["CharacterMatrix and subclasses (DNA, RNA, protein, standard, restriction sites)", "CharacterDataSequence",
+    components = {"real": ["CharacterMatrix and subclasses (DNA, RNA, nucleotide, protein, standard, restriction sites, infinite sites, continuous)", "CharacterDataSequence",
                            "CharacterSubset", "fasta reader (concatenate_from_streams/paths)"],
                   "simulated": ["operation history", "file system for concatenate_from_paths (SimFS)", "logical time (step clock)"]}
     assumptions = ["termination = each operation finishes within %d step-clock ticks, re-checked at 20x on a fresh replay of the history before HANG is reported" % BUDGET,
-                   "taxon labels within a namespace are distinct; rows are compared through symbols_as_string()"]
+                   "taxon labels within a namespace are distinct; rows are compared through symbols_as_list()"]
 
     def __init__(self, name="c19"):
         self.name = name
@@ -75,9 +77,13 @@ class C19(Machine):
             for l in labs:
                 if full or rng.random() < 0.6:
                     k = n if not ragged else rng.randint(0, 12)
-                    rows[l] = "".join(rng.choice(syms[:4] if rng.random() < 0.7 else syms) for _ in range(k))
+                    rows[l] = [rng.choice(syms[:4] if rng.random() < 0.7 else syms) for _ in range(k)]
+                    if dt != "continuous":
+                        rows[l] = "".join(rows[l])
             mats.append({"rows": rows, "label": rng.choice([None, None, "locus", "gene", "locus"])})
-        foreign = {"rows": dict((l, "".join(rng.choice(syms[:2]) for _ in range(3))) for l in labs[:2]), "label": None}
+        foreign = {"rows": dict((l, [rng.choice(syms[:2]) for _ in range(3)]) for l in labs[:2]), "label": None}
+        if dt != "continuous":
+            foreign["rows"] = dict((l, "".join(v)) for l, v in foreign["rows"].items())
         ops = ["concatenate", "concatenate", "concatenate_paths", "concatenate_streams", "extend_matrix", "extend_sequences",
                "add_sequences", "replace_sequences", "update_sequences", "remove_sequences", "discard_sequences", "keep_sequences", "del_row",
                "fill", "fill_taxa", "pack", "new_subset", "export_subset", "export_indices", "foreign", "self_extend"]
@@ -142,11 +148,11 @@ class C19(Machine):
         pool = []      # (matrix, model rows: dict label->list, label)
         for md in plan["initial"]["matrices"]:
             m = self._mk(cls, md["rows"], ns, md["label"])
-            pool.append([m, dict((l, list(s)) for l, s in md["rows"].items()), {}])
+            pool.append([m, dict((l, [str(c) for c in s]) for l, s in md["rows"].items()), {}])
         fns = dendropy.TaxonNamespace(labs)
         fd = plan["initial"]["foreign"]
         foreign = self._mk(cls, fd["rows"], fns, None)
-        fmodel = dict((l, list(s)) for l, s in fd["rows"].items())
+        fmodel = dict((l, [str(c) for c in s]) for l, s in fd["rows"].items())
         names = []
         changed = False
         self._compare(rec, pool, foreign, fmodel, "init")
@@ -252,7 +258,7 @@ class C19(Machine):
             # via FASTA files in SimFS: every file must hold the same taxa with equal lengths
             usable = [it for it in items if len(it[1]) >= 1 and len(set(len(v) for v in it[1].values())) == 1 and width(it[1]) > 0
                       and set(it[1]) == set(items[0][1])]
-            if not usable or usable[0] is not items[0] or len(usable) != len(items):
+            if not usable or usable[0] is not items[0] or len(usable) != len(items) or cls is dendropy.ContinuousCharacterMatrix:
                 return "skipped"
             fs = SimFS()
             paths = []
@@ -365,7 +371,11 @@ class C19(Machine):
                         del rA[l]
             return "changed"
         if op in ("fill", "pack", "fill_taxa"):
-            value = mA.default_state_alphabet[syms[st["sym"] % len(syms)]]
+            value = syms[st["sym"] % len(syms)]
+            if cls is not dendropy.ContinuousCharacterMatrix:
+                value = mA.default_state_alphabet[value]
+            else:
+                rec.probe("continuous_fill")
             vs = str(value)
             if op == "fill_taxa":
                 mA.fill_taxa()
@@ -423,8 +433,8 @@ class C19(Machine):
         for k, (m, rows, subs) in enumerate(pool + [[foreign, fmodel, {}]]):
             got = {}
             for t in m:
-                got[t.label] = m[t].symbols_as_string()
-            want = dict((l, "".join(v)) for l, v in rows.items())
+                got[t.label] = m[t].symbols_as_list()
+            want = dict((l, list(v)) for l, v in rows.items())
             if got != want:
                 which = "foreign" if m is foreign else "matrix #%d" % k
                 d = [l for l in sorted(set(got) | set(want)) if got.get(l) != want.get(l)]
